@@ -58,10 +58,11 @@ fn main() {
     let file = std::fs::File::open(&args[2]).expect("case file");
     let reader = std::io::BufReader::new(file);
     let out = std::io::stdout();
-    // the real work runs on a thread with a large stack: deep recursion in the code under test on
-    // generated inputs should surface as a result, not kill the worker at an arbitrary default limit
+    // the real work runs on a thread whose stack size the check chooses (GVERIF_STACK_MB): large by default so that the
+    // harness's own recursive read-back never limits a check; C03 uses Rust's default thread stack (2 MiB), so that a
+    // stack overflow of the compile pipeline kills the worker and is reported by the supervisor as an abort
     let handle = std::thread::Builder::new()
-        .stack_size(256 << 20)
+        .stack_size(std::env::var("GVERIF_STACK_MB").ok().and_then(|v| v.parse::<usize>().ok()).unwrap_or(256) << 20)
         .spawn(move || {
             let mut out = out.lock();
             for (i, line) in reader.lines().enumerate() {
